@@ -1039,6 +1039,9 @@ func (w *c05Walker) mapVal(v reflect.Value, consume bool) string {
 	}
 	a := w.addr(v)
 	tp := c05TP{v.Type(), v.Pointer()}
+	if v.Len() > 1 {
+		w.feats["go-map>1"]++
+	}
 	if w.anc[tp] > 0 && v.Len() > 0 {
 		if consume && !w.desync && !w.refOrMarker(v, consume) {
 			w.lost("a cycle is walked again")
@@ -1985,18 +1988,20 @@ func (g *c05Gen) cfg(root interface{}, recursion bool) *c05Cfg {
 // running the implementation
 
 type c05Run struct {
-	Evs      []Ev
-	Panic    string
-	Rej      int // index of the first event the validator rejects, -1 none
-	RejMsg   string
-	Problems []c05Problem
-	Feats    map[string]int
-	Term     string
-	CfgTerm  string
-	Decode   map[string]string // format -> "" | error text
-	Docs     map[string][]byte
-	DupAt    map[int]bool // positions of repeated field names
-	DupDiff  bool         // recursion support: go-duplicates flags other objects than the model's finder does (interior pointers)
+	Evs        []Ev
+	Panic      string
+	Rej        int // index of the first event the validator rejects, -1 none
+	RejMsg     string
+	Problems   []c05Problem
+	Feats      map[string]int
+	Term       string
+	CfgTerm    string
+	Decode     map[string]string // format -> "" | error text
+	Docs       map[string][]byte
+	Reuse      []c05Verdict    // verdicts that only exist for a document of a sequence
+	ReusedOnly map[string]bool // format -> the reused marshaler's document does not decode, a fresh marshaler's does
+	DupAt      map[int]bool    // positions of repeated field names
+	DupDiff    bool            // recursion support: go-duplicates flags other objects than the model's finder does (interior pointers)
 }
 
 func c05Iterate(root interface{}, kc *c05Cfg) (evs []Ev, panicked string) {
@@ -2051,10 +2056,27 @@ func c05Marshal(format string, root interface{}, kc *c05Cfg) (doc []byte, res st
 }
 
 func c05Exec(root interface{}, kc *c05Cfg) *c05Run {
-	r := &c05Run{Decode: map[string]string{}, Docs: map[string][]byte{}}
-	r.Evs, r.Panic = c05Iterate(root, kc)
+	evs, panicked := c05Iterate(root, kc)
+	return c05Judge(root, kc, evs, panicked, nil, nil)
+}
+
+// a document some marshaler produced for the value (in a sequence: a marshaler that is used again and again)
+type c05Doc struct {
+	Bytes []byte
+	Err   string
+}
+
+// the property on one document: evs are the events the iterator delivered for root; docs (nil: marshal now, with a
+// fresh marshaler) the documents of the CBE and CTE marshalers; sids (nil: fresh) the numbering of struct types, shared
+// between the documents of one sequence
+func c05Judge(root interface{}, kc *c05Cfg, evs []Ev, panicked string, docs map[string]c05Doc, sids map[reflect.Type]int) *c05Run {
+	r := &c05Run{Decode: map[string]string{}, Docs: map[string][]byte{}, ReusedOnly: map[string]bool{}}
+	r.Evs, r.Panic = evs, panicked
 	r.Rej, _, r.RejMsg = runRules(defaultRulesCfg(), r.Evs)
 	w := newC05Walker(r.Evs, kc)
+	if sids != nil {
+		w.sids = sids
+	}
 	r.CfgTerm = w.cfgTerm()
 	if root == nil {
 		r.Term = "None"
@@ -2095,19 +2117,70 @@ func c05Exec(root interface{}, kc *c05Cfg) *c05Run {
 	}
 	for _, f := range []string{"cbe", "cte"} {
 		doc, res := c05Marshal(f, root, kc)
+		if docs != nil {
+			// the document of the reused marshaler is the one that is judged; without a Go map with several entries
+			// (whose order is random) it is also, byte for byte, the document a fresh marshaler writes
+			fresh, freshRes := doc, res
+			doc, res = docs[f].Bytes, docs[f].Err
+			if res == "" && freshRes == "" && w.feats["go-map>1"] == 0 && string(fresh) != string(doc) {
+				r.Reuse = append(r.Reuse, c05Verdict{"C05/reuse/" + f + "-document-differs", "reuse", "a marshaler that has written other documents before writes the same document as a fresh one",
+					fmt.Sprintf("fresh %s, reused %s", c05DocString(f, fresh), c05DocString(f, doc))})
+			}
+		}
 		r.Docs[f] = doc
 		if res != "" {
 			r.Decode[f] = "marshal: " + res
 			continue
 		}
 		r.Decode[f] = c05Decode(f, doc, kc)
+		if docs != nil && r.Decode[f] != "" {
+			if fresh, freshRes := c05Marshal(f, root, kc); freshRes == "" && c05Decode(f, fresh, kc) == "" {
+				r.ReusedOnly[f] = true // a fresh marshaler's document for the same value does decode
+			}
+		}
 	}
 	return r
 }
 
+func c05DocString(format string, doc []byte) string {
+	if format == "cte" {
+		return strconv.Quote(c05Short(string(doc), 200))
+	}
+	return c05Short(hex.EncodeToString(doc), 200)
+}
+
 // the recorded defect class that explains a rejected stream, by what the value contains
+// the refused event is a local reference whose marker this document does not have (so far)
+// (so far), or the end of a document in which some local reference has no marker at all
+func (r *c05Run) refWithoutMarker() bool {
+	if r.Rej < 0 {
+		return false
+	}
+	marked := func(id string, upto int) bool {
+		for _, e := range r.Evs[:upto] {
+			if e.K == "mk" && string(e.Data) == id {
+				return true
+			}
+		}
+		return false
+	}
+	switch r.Evs[r.Rej].K {
+	case "ref":
+		return !marked(string(r.Evs[r.Rej].Data), r.Rej)
+	case "ed":
+		for _, e := range r.Evs[:r.Rej] {
+			if e.K == "ref" && !marked(string(e.Data), r.Rej) {
+				return true
+			}
+		}
+	}
+	return false
+}
+
 func (r *c05Run) cause() string {
 	switch {
+	case r.refWithoutMarker():
+		return "reference-without-marker"
 	case r.Rej >= 0 && r.DupAt[r.Rej]:
 		// the refused event is a field name that the same map / record type has already: two fields of the flattened
 		// struct go by one name (an embedded struct's field shadowed by, or colliding with, another field)
@@ -2226,6 +2299,7 @@ func (r *c05Run) verdicts(unsupported bool) []c05Verdict {
 		}
 		out = append(out, c05Verdict{"C05/describe/" + p.Class, "describe", "the events describe exactly the value", p.Detail})
 	}
+	out = append(out, r.Reuse...)
 	for _, f := range []string{"cbe", "cte"} {
 		if r.Decode[f] == "" {
 			continue
@@ -2235,6 +2309,9 @@ func (r *c05Run) verdicts(unsupported bool) []c05Verdict {
 			cause = "other"
 			if f == "cte" && strings.Contains(r.Decode[f], "Typed array support for Boolean") {
 				cause = "bool-array"
+			}
+			if r.ReusedOnly[f] {
+				cause = "reused-marshaler"
 			}
 		}
 		out = append(out, c05Verdict{"C05/decode/" + f + "/" + cause, "decode", "the marshaled document decodes without error", r.Decode[f]})
@@ -3381,6 +3458,225 @@ func c05MustRejectKey(zoo string) string {
 	return "C05/rules-accept/malformed-media-type"
 }
 
+// ---------------------------------------------------------------------------
+// sequences: several values, one after the other, through ONE RootObjectIterator and ONE CBE / CTE marshaler.
+// Every document has to stand on its own: it is judged exactly like the document of a single value.
+
+type c05SeqEntry struct {
+	Name     string
+	Build    func() []interface{}
+	Records  map[string]interface{}
+	NeedsRec bool // finite only with recursion support (cycles)
+	Interior bool
+}
+
+type c05Ring struct {
+	I    int
+	Next *c05Ring
+}
+
+func c05SeqZoo() []c05SeqEntry {
+	ring := func() *c05Ring {
+		r := &c05Ring{I: 1}
+		r.Next = &c05Ring{I: 2, Next: r}
+		return r
+	}
+	var z []c05SeqEntry
+	add := func(name string, needsRec bool, b func() []interface{}) *c05SeqEntry {
+		z = append(z, c05SeqEntry{Name: name, Build: b, NeedsRec: needsRec})
+		return &z[len(z)-1]
+	}
+	add("ring-twice", true, func() []interface{} { r := ring(); return []interface{}{r, r} })
+	add("ring-three-times", true, func() []interface{} { r := ring(); return []interface{}{r, r, r} })
+	add("ring-then-its-second-node", true, func() []interface{} { r := ring(); return []interface{}{r, r.Next, r} })
+	add("rings-unrelated", true, func() []interface{} { return []interface{}{ring(), ring(), ring()} })
+	e := add("ring-as-record", true, func() []interface{} { r := ring(); return []interface{}{r, []interface{}{r, r.Next}} })
+	e.Records = map[string]interface{}{"ring": c05Ring{}}
+	// shared, not cyclic: also without recursion support
+	add("shared-pointer-twice", false, func() []interface{} {
+		x := 5
+		v := []interface{}{&x, &x}
+		return []interface{}{v, v}
+	})
+	add("shared-in-first-single-in-second", false, func() []interface{} {
+		x := 5
+		return []interface{}{[]interface{}{&x, &x}, []interface{}{&x}, &x}
+	})
+	add("single-in-first-shared-in-second", false, func() []interface{} {
+		x := 5
+		return []interface{}{[]interface{}{&x}, []interface{}{&x, &x, &x}}
+	})
+	add("shared-in-every-document", false, func() []interface{} {
+		x, y := "x", "y"
+		return []interface{}{[]interface{}{&x, &x}, []interface{}{&y, &x, &y, &x}, map[string]interface{}{"k": []*string{&x, &x}}}
+	})
+	add("shared-slice-and-map", false, func() []interface{} {
+		l := []interface{}{1, "a"}
+		m := map[string]int{"k": 1}
+		return []interface{}{[]interface{}{l, m, l, m}, []interface{}{m, m}, []interface{}{l, l, m}}
+	})
+	add("more-markers-each-time", false, func() []interface{} {
+		a, b, c := 1, 2, 3
+		return []interface{}{[]*int{&a, &a}, []*int{&a, &a, &b, &b}, []*int{&c, &b, &a, &c, &b, &a}}
+	})
+	add("unrelated-values", false, func() []interface{} {
+		return []interface{}{[]int{1, 2}, c05RecA{1, "x", []int{1}}, "text"}
+	})
+	add("nil-between", false, func() []interface{} {
+		x := 1.5
+		v := []*float64{&x, &x}
+		return []interface{}{v, nil, v}
+	})
+	e = add("records-shared-struct-pointer", false, func() []interface{} {
+		ra := &c05RecA{1, "x", []int{1}}
+		return []interface{}{[]interface{}{ra, ra}, c05RecB{"n", *ra, ra}, []*c05RecA{ra, ra}}
+	})
+	e.Records = map[string]interface{}{"zb": c05RecB{}, "a": c05RecA{}}
+	e = add("same-address-objects", false, func() []interface{} { // a struct and its first field, document after document
+		s := &c05Scene{Hero: c05Sprite{c05Pos{5, "p"}, "hero"}, N: 7, Other: c05Sprite{c05Pos{6, "q"}, "other"}}
+		return []interface{}{[]interface{}{s, s}, []interface{}{&s.Hero, &s.Hero, s, s}, []interface{}{&s.Hero.Pos, &s.Hero.Pos}}
+	})
+	e.Interior = true
+	add("cyclic-map-and-slice", true, func() []interface{} {
+		m := map[interface{}]interface{}{}
+		m[1] = m
+		l := make([]interface{}, 1)
+		l[0] = l
+		return []interface{}{m, l, []interface{}{m, l}}
+	})
+	add("cycle-all-twice", true, func() []interface{} {
+		a := &c05Cyc{V: 1}
+		b := &c05Cyc{V: 2, Next: a}
+		a.Next = b
+		a.Kids = []*c05Cyc{a, b, nil}
+		a.M = map[string]*c05Cyc{"self": a}
+		return []interface{}{a, b, a}
+	})
+	return z
+}
+
+func (e *c05SeqEntry) cfgs() []*c05Cfg {
+	var out []*c05Cfg
+	mk := func(snake, rec bool, omit configuration.FieldOmitBehavior) {
+		k := &c05Cfg{Snake: snake, Recursion: rec, Omit: omit}
+		names := []string{}
+		for n := range e.Records {
+			names = append(names, n)
+		}
+		sort.Strings(names)
+		for _, n := range names {
+			k.RecNames = append(k.RecNames, n)
+			k.RecTypes = append(k.RecTypes, reflect.TypeOf(e.Records[n]))
+		}
+		out = append(out, k)
+	}
+	mk(true, true, configuration.OmitFieldEmpty)
+	mk(false, true, configuration.OmitFieldNever)
+	if !e.NeedsRec {
+		mk(true, false, configuration.OmitFieldEmpty)
+	}
+	return out
+}
+
+// runs the values through one iterator and one marshaler of each format; one judged run per document (the
+// sequence ends early when the iterator panics: its state is then undefined)
+func c05RunSeq(vals []interface{}, kc *c05Cfg) []*c05Run {
+	cfg := kc.config()
+	rec := &Recorder{}
+	it := iterator.NewSession(nil, cfg).NewIterator(rec)
+	ms := map[string]ce.Marshaler{"cbe": ce.NewCBEMarshaler(cfg), "cte": ce.NewCTEMarshaler(cfg)}
+	sids := map[reflect.Type]int{}
+	var runs []*c05Run
+	for _, v := range vals {
+		start := len(rec.Evs)
+		panicked := ""
+		func() {
+			defer func() {
+				if r := recover(); r != nil {
+					panicked = fmt.Sprint(r)
+				}
+			}()
+			it.Iterate(v)
+		}()
+		evs := append([]Ev{}, rec.Evs[start:]...)
+		docs := map[string]c05Doc{}
+		for f, m := range ms {
+			f, m := f, m
+			func() {
+				defer func() {
+					if r := recover(); r != nil {
+						docs[f] = c05Doc{Err: "panic: " + fmt.Sprint(r)}
+					}
+				}()
+				doc, err := m.MarshalToDocument(v)
+				if err != nil {
+					docs[f] = c05Doc{Bytes: doc, Err: err.Error()}
+				} else {
+					docs[f] = c05Doc{Bytes: doc}
+				}
+			}()
+		}
+		runs = append(runs, c05Judge(v, kc, evs, panicked, docs, sids))
+		if panicked != "" {
+			break
+		}
+	}
+	return runs
+}
+
+// a random sequence from a sub-seed: a random value, then the same value twice in a list, then the value again
+func c05RandomSeq(sub int64) (vals []interface{}, kc *c05Cfg, interior bool) {
+	root, kc, interior := c05Random(sub, false)
+	switch sub % 3 {
+	case 0:
+		vals = []interface{}{root, root}
+	case 1:
+		vals = []interface{}{root, []interface{}{root, root}, root}
+	default:
+		vals = []interface{}{[]interface{}{root, root}, root}
+	}
+	return vals, kc, interior
+}
+
+func c05RecordSeq(c *Ctx, cf *caseFile, label string, vals []interface{}, kc *c05Cfg, interior bool, input map[string]string) {
+	runs := c05RunSeq(vals, kc)
+	inModel := kc.recordOrderOK()
+	var docs []string
+	for i, r := range runs {
+		in := map[string]string{"doc": strconv.Itoa(i), "cfg": kc.String()}
+		for k, v := range input {
+			in[k] = v
+		}
+		for _, v := range r.verdicts(false) {
+			c.Fail(Replay{Kind: v.Kind, Key: v.Key, Input: in, Expect: v.Expect, Got: v.Got,
+				Note: fmt.Sprintf("%s :: document %d of %d through one iterator / marshaler :: %T :: events %s", label, i+1, len(vals), vals[i], c05Short(evsString(r.Evs), 400))})
+		}
+		if interior && r.DupDiff {
+			inModel = false
+		}
+		rej := "None"
+		if r.Rej >= 0 {
+			rej = cSome(cNi(r.Rej))
+		}
+		docs = append(docs, cTuple(r.Term, cEvs(r.Evs), cBool(r.Panic == ""), rej))
+		c.Count(label+"|"+kc.String()+"|"+strconv.Itoa(i)+"|"+evsString(r.Evs), len(r.Evs) > 4)
+		c.Dist(fmt.Sprintf("sequence/document-%d/recursion=%v", i+1, kc.Recursion))
+		for _, e := range r.Evs {
+			if e.K == "mk" || e.K == "ref" {
+				c.Dist("sequence/event/" + e.K)
+			}
+		}
+	}
+	if len(runs) == 0 {
+		return
+	}
+	if inModel {
+		cf.Add(cTuple(runs[0].CfgTerm, cList(docs)), fmt.Sprintf("%s | %s | %d documents | %s", label, kc.String(), len(runs), c05Short(evsString(runs[len(runs)-1].Evs), 200)))
+	} else {
+		c.Dist("outside-model/sequence")
+	}
+}
+
 func c05Short(s string, n int) string {
 	if len(s) > n {
 		return s[:n] + "…"
@@ -3453,7 +3749,7 @@ func c05Random(sub int64, defect bool) (root interface{}, kc *c05Cfg, interior b
 }
 
 func runC05(c *Ctx) {
-	c.Rep.Rule = "random values of random types (reflect.StructOf structs with ce tags, slices, arrays, maps, pointers with sharing, interfaces, typed arrays, bool slices, library types, Node, Edge), depth <= 3, each with a random iterator configuration (field-name style, default omit behaviour, record types chosen among the struct types of the value, recursion support 1/3 with cycles); one third of the random cases may contain shapes of the open defect classes (edges, signalling float32 NaNs, embedded structs whose field names are chosen without regard to the names above them); one random struct type in four embeds one or two fields that are not structs (named int / string / []byte / float / bool / slice / interface / array types (not a map: reflect.StructOf cannot build that), pointer to a struct, pointer to a named int: ordinary fields named after their type, with tags); two random struct types in five embed structs 1-6 levels deep (one or two embedded structs per level, at any position, flattened field names kept distinct); with recursion support two cases in three (one in four without) reuse finished pointers / slices / maps and point into the middle of finished objects (address of a struct field, of the first element of an array or slice: same address as the enclosing object, another type); plus a zoo of hand-written values (bool slices of every length around byte boundaries, edges, records, omit tags on every kind, shared pointers, cycles, slices sharing a base; embedded structs: chains of every depth 0-6 with the embedded struct first / in the middle / last and 1-3 innermost fields of equal or mixed types, binary trees of embeddings of depth 1-4, named chains, all as maps and as records; embedded fields that are not structs (the former panics of extractFields: a named int, a pointer to a struct nil and non-nil, named string / bytes / float / bool / map / list / typed slice / interface / array, pointer to a named int, an unexported one, with name / omit / order tags, below 0-4 levels of embedded structs, the level below embedded through a pointer); flattened fields that go by one name (an outer field shadowing an embedded struct's field at embedding depth 1-5, a `name=` tag repeating one, names that fall together in snake case only, two levels using one name, two embedded siblings with a field X) and exported fields promoted through an embedded struct whose type name is lower-case (first / middle / last, below an exported embedding, with an exported embedding below it, tagged, omitted as a control) - both open findings; objects of different types at one address under recursion support: every pair out of struct / first field / first field of that / its first int, pointer to array / slice of it / first element, slice / first element, zero-size objects, in three orders of occurrence, in lists, typed fields and maps; media types of every allowed character class, and malformed ones whose events the validator has to refuse; times of every type and time-zone form, and compact times that Validate rejects - month 13 / 0, day 30 of February / 0, year 0, hour 24, minute 60, second 61, nanosecond 10^9, latitude / longitude / offset out of range, empty area - whose events the validator has to refuse) under 2-5 configurations each; a case is trivial when the document is only nil, a bool or an integer; distinct = distinct (label, configuration, event stream)"
+	c.Rep.Rule = "random values of random types (reflect.StructOf structs with ce tags, slices, arrays, maps, pointers with sharing, interfaces, typed arrays, bool slices, library types, Node, Edge), depth <= 3, each with a random iterator configuration (field-name style, default omit behaviour, record types chosen among the struct types of the value, recursion support 1/3 with cycles); one third of the random cases may contain shapes of the open defect classes (edges, signalling float32 NaNs, embedded structs whose field names are chosen without regard to the names above them); one random struct type in four embeds one or two fields that are not structs (named int / string / []byte / float / bool / slice / interface / array types (not a map: reflect.StructOf cannot build that), pointer to a struct, pointer to a named int: ordinary fields named after their type, with tags); two random struct types in five embed structs 1-6 levels deep (one or two embedded structs per level, at any position, flattened field names kept distinct); with recursion support two cases in three (one in four without) reuse finished pointers / slices / maps and point into the middle of finished objects (address of a struct field, of the first element of an array or slice: same address as the enclosing object, another type); sequences of 2-3 values through ONE RootObjectIterator and ONE CBE / CTE marshaler (a cyclic ring two and three times, its second node in between, unrelated rings, shared pointers / slices / maps that are shared in the first document and single in the second and the other way round, more markers in every document, a nil document in between, records, a struct and its first field, cyclic maps and slices; with recursion support on and, where finite, off; and 120 random sequences: a random value, the value twice in a list, the value again), every document judged like the document of a single value and, without a Go map of several entries, compared byte for byte with a fresh marshaler's document; the model threads the marker counter through the documents; plus a zoo of hand-written values (bool slices of every length around byte boundaries, edges, records, omit tags on every kind, shared pointers, cycles, slices sharing a base; embedded structs: chains of every depth 0-6 with the embedded struct first / in the middle / last and 1-3 innermost fields of equal or mixed types, binary trees of embeddings of depth 1-4, named chains, all as maps and as records; embedded fields that are not structs (the former panics of extractFields: a named int, a pointer to a struct nil and non-nil, named string / bytes / float / bool / map / list / typed slice / interface / array, pointer to a named int, an unexported one, with name / omit / order tags, below 0-4 levels of embedded structs, the level below embedded through a pointer); flattened fields that go by one name (an outer field shadowing an embedded struct's field at embedding depth 1-5, a `name=` tag repeating one, names that fall together in snake case only, two levels using one name, two embedded siblings with a field X) and exported fields promoted through an embedded struct whose type name is lower-case (first / middle / last, below an exported embedding, with an exported embedding below it, tagged, omitted as a control) - both open findings; objects of different types at one address under recursion support: every pair out of struct / first field / first field of that / its first int, pointer to array / slice of it / first element, slice / first element, zero-size objects, in three orders of occurrence, in lists, typed fields and maps; media types of every allowed character class, and malformed ones whose events the validator has to refuse; times of every type and time-zone form, and compact times that Validate rejects - month 13 / 0, day 30 of February / 0, year 0, hour 24, minute 60, second 61, nanosecond 10^9, latitude / longitude / offset out of range, empty area - whose events the validator has to refuse) under 2-5 configurations each; a case is trivial when the document is only nil, a bool or an integer; distinct = distinct (label, configuration, event stream)"
 	cf := c.Cases("iterate", "CE.Model.Iterate", "iterate_case", "iterate_case_ok")
 	cf.perFile = 100
 
@@ -3467,6 +3763,19 @@ func runC05(c *Ctx) {
 			c05Record(c, cf, "zoo/"+e.Name, root, kc, e.Unsupported, e.Feat, e.Interior, input)
 		}
 	}
+	sf := c.Cases("iterate_seq", "CE.Model.Iterate", "iterate_seq_case", "iterate_seq_case_ok")
+	sf.perFile = 60
+	for _, e := range c05SeqZoo() {
+		for i, kc := range e.cfgs() {
+			c05RecordSeq(c, sf, "seq/"+e.Name, e.Build(), kc, e.Interior, map[string]string{"seq": e.Name, "cfg_index": strconv.Itoa(i)})
+		}
+	}
+	srng := rand.New(rand.NewSource(c.Seed ^ 0x5e9))
+	for i, ns := 0, c.Pick(120, 3000); i < ns; i++ {
+		sub := srng.Int63()
+		vals, kc, interior := c05RandomSeq(sub)
+		c05RecordSeq(c, sf, fmt.Sprintf("seq/random/%d", i), vals, kc, interior, map[string]string{"seq_subseed": strconv.FormatInt(sub, 10)})
+	}
 	n := c.Pick(900, 20000)
 	for i := 0; i < n; i++ {
 		sub := c.Rng.Int63()
@@ -3476,7 +3785,54 @@ func runC05(c *Ctx) {
 	}
 }
 
+func replayC05Seq(r *Replay) (bool, string) {
+	var vals []interface{}
+	var kc *c05Cfg
+	if name, ok := r.Input["seq"]; ok {
+		for _, e := range c05SeqZoo() {
+			if e.Name == name {
+				idx, _ := strconv.Atoi(r.Input["cfg_index"])
+				if cfgs := e.cfgs(); idx >= 0 && idx < len(cfgs) {
+					vals, kc = e.Build(), cfgs[idx]
+				}
+			}
+		}
+		if kc == nil {
+			return false, "unknown sequence " + name
+		}
+	} else {
+		sub, err := strconv.ParseInt(r.Input["seq_subseed"], 10, 64)
+		if err != nil {
+			return false, "bad replay input"
+		}
+		vals, kc, _ = c05RandomSeq(sub)
+	}
+	doc, _ := strconv.Atoi(r.Input["doc"])
+	runs := c05RunSeq(vals, kc)
+	if doc < 0 || doc >= len(runs) {
+		return false, "the sequence has no such document"
+	}
+	run := runs[doc]
+	vs := run.verdicts(false)
+	detail := fmt.Sprintf("document %d of %d through one iterator / marshaler, %T under %s: events %s [cte %q]", doc+1, len(vals), vals[doc], kc.String(), c05Short(evsString(run.Evs), 500), c05Short(string(run.Docs["cte"]), 200))
+	for _, v := range vs {
+		if v.Key == r.Key || r.Key == "" {
+			return false, fmt.Sprintf("%s: %s; %s", v.Key, v.Got, detail)
+		}
+	}
+	if len(vs) > 0 {
+		return false, fmt.Sprintf("%s: %s; %s", vs[0].Key, vs[0].Got, detail)
+	}
+	return true, detail
+}
+
 func replayC05(r *Replay) (bool, string) {
+	if _, ok := r.Input["seq"]; ok {
+		return replayC05Seq(r)
+	}
+	if _, ok := r.Input["seq_subseed"]; ok {
+		return replayC05Seq(r)
+	}
 	var root interface{}
 	var kc *c05Cfg
 	unsupported := false
